@@ -104,7 +104,11 @@ def suite_reassigned(ctx):
         for ct in (1, 2):
             for v in values:
                 obj = Baudrate(start[ty], types[ty])
-                obj.baudrate = v
+                try:
+                    obj.baudrate = v
+                except Exception:  # noqa   (an object that refuses the assignment has refused the value)
+                    s.count('assignment-refused')
+                    continue
                 client, conn = cl.make_client(cl.Cfg(rt=4, p2=2, p2s=2))
                 how, verdict, flags, payload, exc, r = cl.observe_outer(conn, lambda: client.link_control(ct, obj))
                 sends = [o[1] for o in conn.log if o[0] == 'send']
